@@ -311,6 +311,7 @@ pub fn run(ctx: &Ctx) -> PropResult {
         if quick { ", quick: days with dom < 28 thinned 6x" } else { "" }
     );
     meta.required_bins = vec![
+        "local-twin/judged", "local-twin/synthetic-fixed-zone", "local-twin/real-zone-with-transitions",
         "clamp/none", "clamp/to28", "clamp/to29", "clamp/to30", "unrepresentable", "cross/BC→AD", "cross/AD→BC", "cross/none-BC", "cross/none-AD",
         "dom/29", "dom/30", "dom/31", "op/add_months", "op/sub_months", "op/add_years", "op/sub_years", "N>=2^31",
         "datetime/offset0", "datetime/offset-moves-date", "datetime/offset-same-date", "walk/with-judged-steps",
